@@ -226,6 +226,27 @@ CLAIMS["C04"] = (
     TRUSTED,
     "DESIGN.md §4 C04")
 
+# rules added after the seeded-change rounds (DESIGN.md §0): appended to the level text of the property
+ADDED = {
+    "C01": "Also: the C09 parenthesis / operand-side / adjacency rules and the C15 name-uniqueness and qualified-reference rules re-evaluated for the HLSL path; crate-level inventory of skipping / reordering sequence operations; index ranges start at 0.",
+    "C02": "Also: generate_function_and_trampoline read as a decision table (160 cases); operands repeated by a struct cast are leaves of ir::Expression; the C01 additions for the MSL path.",
+    "C03": "Also: swizzle value-category functions over all slot sequences of length <= 4; ImplicitConversion::find's table for an Lvalue destination (no conversion across element types or dimensions).",
+    "C04": "Also: NameMap uniqueness / generated-names-visible-to-locals rules under this property.",
+    "C05": "Also: the numthreads scan of add_stage (whole attribute list, no early exit, argument order).",
+    "C06": "Also: LanguageBinding.set / .index are the register annotation's own space / slot index (value-origin trace).",
+    "C07": "Also: hash-order loops with cross-iteration state or last-writer-wins assignments, including loops over a Vec filled in hash order.",
+    "C08": "Also: str range-index bounds are character boundaries by construction; admitted scalar types vs handled constant kinds (contradiction rule).",
+    "C10": "Also: the location decoders of SourceManager (C14.line rules) under 'every diagnostic position lies inside the file'.",
+    "C12": "Also: the include cache is keyed by the requested name (one file id per name, #pragma once per id).",
+    "C13": "Also: the literal folding fast path of ImplicitConversion::apply agrees with evaluate_cast.",
+    "C14": "Also: comment scanners start after their opener; no function outside the lexer and Token::is_whitespace singles out Whitespace or Comment; both location decoders select the file with one strict comparison.",
+    "C15": "Also: generated global names are published to the set the local phase consults; ScopedName helpers derive from NameMap::get_name_qualified.",
+    "C16": "Also: opponents are skipped only for being the candidate itself; a function id enters a scope only where it is created and unconditionally.",
+    "C17": "Also: exporters read module.pipelines only as pipelines[<variable>].",
+    "C18": "Also: every front-end call is reachable for every Target value (per-value edge feasibility with constant propagation through matches!); both analyse_bindings read type layers after remove_modifier.",
+    "C19": "Also: each layout is rounded with its own alignment and those two layouts are the ones compared.",
+}
+
 NOT_YET = "rules for this property are not built yet in this round (see DESIGN.md §10 build order); no claim is made"
 
 
@@ -237,6 +258,8 @@ def main():
         pid = p["id"]
         if pid in CLAIMS:
             tech, text, note, ref = CLAIMS[pid]
+            if pid in ADDED:
+                text = text + " " + ADDED[pid]
             checks.append({
                 "property_id": pid,
                 "quick_cmd": "bin/check %s" % pid,
@@ -271,7 +294,8 @@ def main():
         "checks": checks,
         "not_applicable": na,
         "notes": "Technique family: static analysis only. Every check re-extracts facts from /repo's current working tree. "
-                 "known_findings.json lists genuine defects by exact rule-instance key.",
+                 "known_findings.json lists genuine defects by exact rule-instance key and the repaired ones (10 fix: commits in /repo). "
+                 "seeded/ holds 38 independently produced breaking changes with the checks that report them (seeded/MATRIX.md); the thorough tier replays them.",
     }
     with open(os.path.join(VERIF, "MANIFEST.json"), "w") as f:
         json.dump(man, f, indent=1)
